@@ -158,3 +158,8 @@ func Run(harnesses map[string]func()) {
 	}
 	finish("ok")
 }
+
+// SymbolicTZ makes the process time zone (time.Local) a nondeterministic whole-hour offset in
+// [-12,+14] and returns it in hours. Natively the replay runner sets $TZ accordingly before the
+// process starts; the vector entry is consumed here.
+func SymbolicTZ() int { return int(int64(next("TZ-offset-hours", "tz"))) }
